@@ -55,7 +55,8 @@ def gen_case(rng, size=None, profile=None):
         for r in range(nres):
             if rng.random() < 0.7:
                 ops.append("init:%d:%d" % (r, rng.choice([16777215, 16777214, 16777210, 16777216 + 5,
-                                                           8388607, 8388608, 0, 1, rng.randrange(1 << 24)])))
+                                                           8388607, 8388608, 0, 1, 255, 65535, 65534,
+                                                           (1 << 20) - 1, rng.randrange(1 << 24)])))
     ninit = len(ops)
     n += ninit
     live = []            # (c, r, q, tok) registrations we believe are live (best effort)
